@@ -309,6 +309,11 @@ func (e *sysEnv) sysStep(ctx *core.Context, op map[string]interface{}) map[strin
 			return errR(err)
 		}
 		return okR(fresh)
+	case "deleteLocation":
+		if err := s.DeleteLocation(ctx, name); err != nil {
+			return errR(err)
+		}
+		return okR(true)
 	case "peek":
 		_, err := s.GetLocation(ctx, name)
 		if err != nil {
